@@ -178,7 +178,12 @@ def run(P, rep, tier):
                         'with -M an assembler input may be preprocessed or left alone',
                         'R14.10: the role of a process is decided by opt_cc1; the front end is cc1 and the phase functions tokenize_file / preprocess / parse / codegen; reachability is over the resolved call graph '
                         '(a call guarded by a condition that is false in the driver role still counts)',
-                        'R14.9: fopen with a literal read mode is the only way an input is opened; a failure is reported by a constant return value']
+                        'R14.9: fopen with a literal read mode is the only way an input is opened; a failure is reported by a constant return value',
+                        'R14.12: a wait for an existing child can fail in two ways the environment decides: -1/EINTR (child still running; explored once per path) and, when the driver was started with SIGCHLD ignored '
+                        '(the disposition survives exec) and no reachable call gives SIGCHLD another disposition, -1/ECHILD after the kernel reaped the child (no status written); errno is one cell per process, '
+                        'written by the modelled wait calls only',
+                        'R14.13: decided structurally per function and stream variable (no path sensitivity): ferror/fflush/fclose on the variable inside an if-condition whose branch returns or ends the process, '
+                        'in the function itself or in a program function it passes the stream to; standard output closed at exit is not covered']
     cg = L.CallGraph(P)
     reach_main = cg.reach('main')
     facts = {}
@@ -194,7 +199,8 @@ def run(P, rep, tier):
              ('R14.11', lambda: r1411(P, u, rep, cg, facts)),
              ('R14.7', lambda: r147(P, rep, cg)),
              ('R14.8', lambda: r148(P, u, rep, cg, facts)),
-             ('R14.9', lambda: r149(P, rep, cg, reach_main))]
+             ('R14.9', lambda: r149(P, rep, cg, reach_main)),
+             ('R14.13', lambda: r1413(P, rep, cg, reach_main))]
     for name, f in steps:
         t0 = time.time()
         f()
@@ -545,6 +551,9 @@ def r143_r144(P, u, rep, cg, reach_main, facts):
                       'the driver is never replaced by exec and never terminated by a signal it (or its child) sends to it', floor=4)
     rep.rule('R14.4', 'on every path from process creation (fork, posix_spawn*, system) to the return the wait status is read, every non-zero status (exit code or signal) ends the driver with a non-zero status, '
                       'success continues, and a failed process creation - as that API reports it: fork/system -1, posix_spawn* a positive errno value - is fatal', floor=4)
+    rep.rule('R14.12', 'a wait that FAILS is never taken for the completion of the child: when the wait is interrupted (-1/EINTR, child still running) the launcher waits again or ends the driver with a non-zero status; '
+                       'when the driver was started with SIGCHLD ignored and does not reset it (the kernel reaps the child, the wait fails with -1/ECHILD, no status exists) the launcher ends the driver with a '
+                       'non-zero status - the only normal return is after the examined status of the child it started was 0', floor=2)
     fork_fns = {}
     kinds = {}          # launcher function -> set of process-creation families it calls (fork / spawn / system)
     for name in L.LAUNCH_FNS:
@@ -569,6 +578,10 @@ def r143_r144(P, u, rep, cg, reach_main, facts):
 
     def sig_may_install(sig, done=()):
         return any((s is None or s == sig) and (cu_.name, call.line) not in done for (cu_, caller, call, s, h) in installs if h != 'dfl')
+    # a reachable call that gives SIGCHLD a disposition other than `ignore` (SIG_DFL or a handler): the program does not depend
+    # on what it inherited; where and whether it runs before the launchers is not decided, so the inherited-ignore
+    # environment is then not explored (no alarm) instead of guessed
+    sigchld_reset = any(s == L.SIGCHLD and h != 'ign' for (cu_, caller, call, s, h) in installs)
     entered_roles = {}   # function -> set of roles in which it was entered while exploring fork functions
     explored_sites = {}  # (unit, line of hard exit call) -> set of roles
     for fn, cu in sorted(fork_fns.items()):
@@ -576,7 +589,8 @@ def r143_r144(P, u, rep, cg, reach_main, facts):
             rep.ob('R14.3', '%s:%s:%s-in-driver' % (cu.name, fn, kind), cu.name == U,
                    'a process is created (%s) outside main.c (%s)' % (kind, cg.witness(fn)), where=_where(cu.fn(fn), cu.name))
         try:
-            it = L.make_interp(P, cu, loop_limit=1, globals_=_lazy_record_globals(cu), inherited_child=True)
+            it = L.make_interp(P, cu, loop_limit=1, globals_=_lazy_record_globals(cu), inherited_child=True,
+                               wait_failures=(lambda st_: not sigchld_reset) if 'system' not in kinds[fn] or len(kinds[fn]) > 1 else False)
             it.sig_may_install = sig_may_install
             paths = it.explore(fn, lambda ctx: [])
         except AnalysisBroken as e:
@@ -596,9 +610,17 @@ def r143_r144(P, u, rep, cg, reach_main, facts):
             # posix_spawn* / system create the child inside libc: it execs or _exits there and never runs code (or handlers) of this program
             rep.ob('R14.3', '%s:%s:child-side-stays-in-libc' % (cu.name, fn), True, '', where=w)
         inherited = {}      # parent paths by the number of children the process owns besides the one it started (decided at a wait for any child)
+        wf_seen = {'ECHILD': 0, 'EINTR': 0}
+        n_waiting_parent = 0
         for ctx, out in paths:
             st = L.proc_state(ctx)
             role = st['role']
+            if role == 'parent' and st['waits']:
+                n_waiting_parent += 1
+            if role == 'parent' and st.get('sigchld_ignored') == 'inherited':
+                wf_seen['ECHILD'] += 1
+            if role == 'parent' and st.get('eintr'):
+                wf_seen['EINTR'] += 1
             if role == 'parent' and st.get('inherited') is not None:
                 inherited[st['inherited']] = inherited.get(st['inherited'], 0) + 1
             for (f, r) in st['entered']:
@@ -648,6 +670,38 @@ def r143_r144(P, u, rep, cg, reach_main, facts):
             if role == 'parent':
                 stt = st['status']
                 others = st.get('others_reaped', 0)       # children the path did not start that a wait-for-any call returned
+                # ---- R14.12: a wait that failed is not the completion of the child
+                if st.get('sigchld_ignored') == 'inherited':
+                    k12 = '%s:%s:wait-fails-ECHILD' % (cu.name, fn)
+                    if L.uninit_read(ctx, out):
+                        rep.ob('R14.12', k12 + '-reads-uninitialised-status', False,
+                               'when the driver is started with SIGCHLD ignored (SIG_IGN survives exec: nohup-like wrappers, build daemons) the kernel reaps the child itself and the wait fails with -1/ECHILD '
+                               'without writing a status; on this path the function then decides on the status variable that was never written', where=w, facts=trail)
+                    elif out[0] == 'ret':
+                        rep.ob('R14.12', k12 + '-taken-for-success', False,
+                               'when the driver is started with SIGCHLD ignored (SIG_IGN survives exec: nohup-like wrappers, build daemons) the kernel reaps the child itself: the wait blocks until the child is gone and '
+                               'then ALWAYS fails with -1/ECHILD, no status is delivered. On this path the function returns normally after that failure: the exit status of every cc1/as/ld is lost, a failing '
+                               'stage counts as successful, the driver carries on (assembles an empty temporary, links without the failed unit) and can exit 0', where=w, facts=trail)
+                    else:
+                        rep.ob('R14.12', k12 + '-is-fatal', _nonzero_exit(out),
+                               'a wait that fails with ECHILD ends the driver through %s%r, which is not a certain non-zero status' % (out[1], tuple(out[2][:1])), where=w, facts=trail)
+                    continue
+                if st.get('eintr'):
+                    k12 = '%s:%s:wait-fails-EINTR' % (cu.name, fn)
+                    if out[0] == 'ret' and (stt is None or st['children'] > 0):
+                        rep.ob('R14.12', k12 + '-taken-for-child-exit', False,
+                               'a wait that is interrupted by a signal (-1/EINTR) leaves the child running and delivers no status; on this path the function returns normally without another wait: '
+                               'the next stage reads a file the child is still writing and the failure of the child is never seen', where=w, facts=trail)
+                        continue
+                    if stt is None and L.uninit_read(ctx, out):
+                        rep.ob('R14.12', k12 + '-reads-uninitialised-status', False,
+                               'after a wait that was interrupted by a signal (-1/EINTR: no status written) the function decides on the status variable that was never written', where=w, facts=trail)
+                        continue
+                    if stt is None:
+                        rep.ob('R14.12', k12 + '-is-fatal', _nonzero_exit(out),
+                               'an interrupted wait ends the driver through %s%r, which is not a certain non-zero status' % (out[1], tuple(out[2][:1])), where=w, facts=trail)
+                        continue
+                    rep.ob('R14.12', k12 + '-is-retried', True, '', where=w)
                 if stt is None or (st['children'] > 0 and out[0] == 'ret'):
                     if out[0] == 'ret' and others:
                         rep.ob('R14.4', '%s:%s:returns-before-own-child-is-reaped' % (cu.name, fn), False,
@@ -720,6 +774,14 @@ def r143_r144(P, u, rep, cg, reach_main, facts):
         for role, n in seen.items():
             if n == 0:
                 rep.undecided('R14.3', '%s:%s:no-%s-path' % (cu.name, fn, role), 'no explored path with process-creation outcome `%s`' % role)
+        if n_waiting_parent and sigchld_reset:
+            # the program gives SIGCHLD a disposition of its own: an inherited `ignore` is not what its waits run under
+            rep.ob('R14.12', '%s:%s:inherited-SIGCHLD-ignore-replaced-by-program' % (cu.name, fn), True, '', where=w)
+        if n_waiting_parent and 'system' not in kinds[fn]:
+            for e, cnt in sorted(wf_seen.items()):
+                if cnt == 0 and not (e == 'ECHILD' and sigchld_reset):
+                    rep.undecided('R14.12', '%s:%s:no-path-with-wait-failing-%s' % (cu.name, fn, e),
+                                  '%s waits for its child, but no path on which that wait fails with %s was explored to its end' % (fn, e))
         if inherited.get(0) and not inherited.get(1):
             rep.undecided('R14.4', '%s:%s:no-path-with-inherited-child' % (cu.name, fn),
                           '%s waits for any child, but no path on which the process owns a child it did not start was explored to its end (cut off by an iteration bound)' % fn)
@@ -812,6 +874,8 @@ def r145(P, u, rep, cg):
     w = _where(u.fn('cc1'))
     n_out = 0
     n_cg = 0
+    # a name computed by a pure string helper of main.c (suffix replacement and the like) is a derived, secondary name
+    dep_name_fns = set(f for f in _pure_string_fns(u, cg) if (_ret_type(u, f) or '').replace(' ', '') == 'char*')
     for ctx, out in paths:
         evs = L.calls_of(ctx)
         for i, e in enumerate(evs):
@@ -822,7 +886,7 @@ def r145(P, u, rep, cg):
                     continue
                 pv = args[0] if args else None
                 g = _root_global(pv)
-                if g in DEP_GLOBALS or (isinstance(pv, Sym) and pv.name.split('#')[0] in DEP_NAME_FNS):
+                if g in DEP_GLOBALS or (isinstance(pv, Sym) and (pv.name.split('#')[0] in DEP_NAME_FNS or pv.name.split('#')[0] in dep_name_fns)):
                     continue        # dependency file of -MD/-MF: a secondary output, written after preprocessing by design
                 if g not in OUTPUT_GLOBALS:
                     rep.undecided('R14.5', '%s:cc1:open-of-%s' % (U, g or 'computed-name'),
@@ -832,6 +896,11 @@ def r145(P, u, rep, cg):
                 n_out += 1
                 later = [x for x in evs[i + 1:] if x[1] in may_fail or x[1] in terminators]
                 later = [x for x in later if x[1] not in ('fopen', 'fopen64')]
+                # a call that is handed the stream just opened (a close/flush helper that reports a failed write) is the writing
+                # of the output itself, not a phase that could have run before the file was created
+                stream = e[4] if len(e) > 4 else None
+                if stream is not None:
+                    later = [x for x in later if not any(a is stream for a in x[2])]
                 names = sorted(set(x[1] for x in later))
                 ok = not later
                 site = L.outer_site(ctx, e)
@@ -1616,6 +1685,8 @@ def _r148_cc1(P, u, rep, cg):
         ('MD', {'opt_MD': 1}, [asm, _stem(src) + '.d']),
         ('MD+o', {'opt_MD': 1, 'opt_o': 'out.v2.o'}, [asm, 'out.v2.d']),
         ('MD+MF', {'opt_MD': 1, 'opt_MF': 'deps.v1.mk'}, [asm, 'deps.v1.mk']),
+        # the dependency file named after `-o` lies beside that output (only the last suffix is replaced, the directory stays)
+        ('MD+o-dir', {'opt_MD': 1, 'opt_o': 'obj.d/out.v2.o'}, [asm, 'obj.d/out.v2.d']),
     ]
     w = _where(u.fn('cc1'))
     for sc, opts, expect in scenarios:
@@ -1734,7 +1805,158 @@ _CC1_CMDLINES = [
     ('c+MD+o', ['-MD', '-c', '-o', 'out.v2.o'], _C1, _ASM_T, [_ASM_T, 'out.v2.d']),
     ('S+MMD+MF', ['-S', '-MMD', '-MF', 'deps.v1.mk'], _C1, _stem(_C1) + '.s', [_stem(_C1) + '.s', 'deps.v1.mk']),
     ('link+MD+MT', ['-MD', '-MT', 'tgt.v1'], _C1, _ASM_T, [_ASM_T, _stem(_C1) + '.d']),
+    ('c+MD+o-dir', ['-MD', '-c', '-o', 'obj.d/out.v2.o'], _C1, _ASM_T, [_ASM_T, 'obj.d/out.v2.d']),
 ]
+
+
+# ================================================================= R14.13 ===
+# "a failed read is not the end of the file, a failed write is not a written file".  stdio reports a read error the same
+# way as end of file (fread 0 / fgets NULL / getc EOF) and a write error possibly only when the buffer is flushed (fflush /
+# fclose); only ferror() - or the result of fflush/fclose - tells them apart.  Decided structurally, per function and per
+# stream variable: the stream's error state (ferror / fflush / fclose result) is examined in a condition one branch of which
+# ends the function (diagnostic or return), in the function itself or in a function of the program it hands the stream to.
+READ_PRIMS = {'fread': 3, 'fread_unlocked': 3, 'fgets': 2, 'fgetc': 0, 'getc': 0, 'getc_unlocked': 0, 'getline': 2, 'getdelim': 3, 'fscanf': 0, 'getw': 0}
+STREAM_STATE_FNS = {'ferror': 0, 'fflush': 0, 'fclose': 0, 'ferror_unlocked': 0}
+
+
+def _is_file_ptr(t):
+    t = (t or '').replace('struct ', '').replace('const ', '').replace(' ', '')
+    return t in ('FILE*', '_IO_FILE*')
+
+
+def _stream_checked_in(fd, vid, terminators, deferred=None):
+    """'yes' | 'value-kept' | 'no': a ferror/fflush/fclose call on the variable `vid` inside fd sits in the condition of an if
+    whose branch ends the function"""
+    kept = False
+    for c in fd.walk():
+        if c.kind != 'CallExpr' or c.callee() not in STREAM_STATE_FNS:
+            continue
+        a = c.args()
+        i = STREAM_STATE_FNS[c.callee()]
+        if len(a) <= i:
+            continue
+        b = a[i].strip_all()
+        if b.kind != 'DeclRefExpr' or b.ref_id != vid:
+            continue
+        prev, n = c, c.parent
+        while n is not None and n.kind not in ('IfStmt', 'CompoundStmt', 'FunctionDecl', 'WhileStmt', 'ForStmt', 'DoStmt', 'VarDecl', 'ReturnStmt'):
+            if n.kind == 'BinaryOperator' and n.opcode in ('=',) or n.kind == 'CompoundAssignOperator':
+                break
+            prev, n = n, n.parent
+        if n is None:
+            continue
+        if n.kind == 'IfStmt' and n.inner and prev is n.inner[0]:
+            ends = any((x.kind == 'ReturnStmt') or (x.kind == 'CallExpr' and x.callee() in terminators) for br in n.inner[1:] for x in br.walk())
+            if ends:
+                return 'yes'
+            kept = True
+        elif n.kind in ('VarDecl', 'ReturnStmt', 'BinaryOperator', 'CompoundAssignOperator'):
+            kept = True     # the state is stored / returned: who looks at it is not followed
+        elif n.kind in ('WhileStmt', 'ForStmt', 'DoStmt'):
+            kept = True
+    return 'value-kept' if kept else 'no'
+
+
+def r1413(P, rep, cg, reach_main):
+    rep.rule('R14.13', 'stream failures are not silent: a function that reads an input through stdio (fread, fgets, getc, getline, ...) tells a read error from end of file (ferror on that stream decides a branch that '
+                       'ends the function), and a function that opens a file for writing examines the error state of that stream (ferror / fflush / fclose result, itself or through a helper it hands the stream to) '
+                       'before it returns - a directory or unreadable medium is not an empty input, a full disk is not a written output', floor=3)
+    terminators = set(L.HARD_EXIT) | set(L.SOFT_EXIT) | set(L.ERROR_FNS)
+    # ---- helpers that examine a stream parameter: name -> set of parameter indexes
+    examiners = {}
+    for fname, defs in cg.defs.items():
+        for (cu, fd) in defs:
+            try:
+                params = cu.params(fname)
+            except Exception:
+                params = []
+            for i, pd in enumerate(params or []):
+                if _is_file_ptr(pd.dtype or pd.type) and _stream_checked_in(fd, pd.id, terminators) == 'yes':
+                    examiners.setdefault(fname, set()).add(i)
+
+    def handed_to_examiner(fd, vid):
+        for c in fd.walk():
+            if c.kind == 'CallExpr' and c.callee() in examiners:
+                for i, a in enumerate(c.args()):
+                    b = a.strip_all()
+                    if i in examiners[c.callee()] and b.kind == 'DeclRefExpr' and b.ref_id == vid:
+                        return True
+        return False
+    # ---- read side
+    n_read = 0
+    done = set()
+    for prim, idx in sorted(READ_PRIMS.items()):
+        for (cu, caller, call) in cg.sites.get(prim, ()):
+            if caller not in reach_main or (cu.name, caller, prim) in done:
+                continue
+            a = call.args()
+            b = a[idx].strip_all() if len(a) > idx else None
+            key = '%s:%s:%s' % (cu.name, caller, prim)
+            if b is None or b.kind != 'DeclRefExpr' or b.ref_id is None:
+                rep.undecided('R14.13', key + '-stream-not-a-variable', '%s() in %s reads from a stream that is not a plain variable: which ferror() belongs to it is not decided' % (prim, caller), where=_where(call, cu.name))
+                continue
+            done.add((cu.name, caller, prim))
+            n_read += 1
+            fd = cu.fn(caller)
+            r = _stream_checked_in(fd, b.ref_id, terminators)
+            if r == 'no' and handed_to_examiner(fd, b.ref_id):
+                r = 'yes'
+            if r == 'value-kept':
+                rep.undecided('R14.13', key + '-error-state-kept-in-a-value', '%s reads with %s() and stores / loops on the error state of the stream: who decides on it is not followed' % (caller, prim), where=_where(call, cu.name))
+                continue
+            rep.ob('R14.13', key + ('-error-told-from-end-of-file' if r == 'yes' else '-error-read-as-end-of-file'), r == 'yes',
+                   '%s (%s) reads its input with %s() and never asks ferror() about that stream: %s() reports a read error exactly like end of file, so an input that cannot be read (a directory: EISDIR, an I/O error, '
+                   'a stale network file) is taken for an empty or truncated file - the translation unit is compiled without it and the driver exits 0' % (caller, cg.witness(caller), prim, prim),
+                   where=_where(call, cu.name))
+    if n_read == 0:
+        rep.undecided('R14.13', 'program:no-stream-read', 'no reachable function reads an input through stdio: the input-reading anchor vanished')
+    # ---- write side: streams opened for writing a named file
+    def opens_for_write(c):
+        cal = c.callee()
+        if cal in ('fopen', 'fopen64', 'freopen'):
+            cr, dec = _creates_file(c)
+            return bool(cr) or not dec
+        return False
+    writer_open = set()     # functions of the program that return a stream they opened for writing
+    for fname, defs in cg.defs.items():
+        for (cu, fd) in defs:
+            if _is_file_ptr(_ret_type(cu, fname)) and any(c.kind == 'CallExpr' and opens_for_write(c) for c in fd.walk()):
+                writer_open.add(fname)
+    n_write = 0
+    for fname in sorted(reach_main):
+        for (cu, fd) in cg.defs.get(fname, ()):
+            if fname in writer_open:
+                continue        # hands the stream to its caller, who is examined
+            seen_openers = {}
+            for n in fd.walk():
+                src = None
+                vid = None
+                if n.kind == 'VarDecl' and _is_file_ptr(n.dtype or n.type) and n.inner:
+                    src, vid = n.inner[-1].strip_all(), n.id
+                elif n.kind == 'BinaryOperator' and n.opcode == '=' and len(n.inner) == 2:
+                    lhs = n.inner[0].strip_all()
+                    if lhs.kind == 'DeclRefExpr' and _is_file_ptr(lhs.dtype or lhs.type):
+                        src, vid = n.inner[1].strip_all(), lhs.ref_id
+                if src is None or src.kind != 'CallExpr' or vid is None:
+                    continue
+                opener = src.callee()
+                if not (opener in writer_open or opens_for_write(src)):
+                    continue
+                n_write += 1
+                r = _stream_checked_in(fd, vid, terminators)
+                if r != 'yes' and handed_to_examiner(fd, vid):
+                    r = 'yes'
+                key = '%s:%s:stream-from-%s' % (cu.name, fname, opener)
+                if r == 'value-kept':
+                    rep.undecided('R14.13', key + '-error-state-kept-in-a-value', '%s stores / loops on the error state of the stream it got from %s(): who decides on it is not followed' % (fname, opener), where=_where(src, cu.name))
+                    continue
+                rep.ob('R14.13', key + ('-write-errors-examined' if r == 'yes' else '-write-errors-never-examined'), r == 'yes',
+                       '%s (%s) writes a file through the stream it got from %s() and returns without ever examining the error state of that stream (no ferror(), result of fflush()/fclose() unused): '
+                       'when the data cannot be written (disk full, quota, I/O error) the output is empty or truncated and the process still exits 0 - the driver goes on to assemble/link it or reports success'
+                       % (fname, cg.witness(fname), opener), where=_where(src, cu.name))
+    if n_write == 0:
+        rep.undecided('R14.13', 'program:no-file-stream-written', 'no reachable function opens a file stream for writing: the output-writing anchor vanished')
+
 
 
 # ================================================================== R14.9 ===
@@ -1838,6 +2060,16 @@ def _open_failure_outcome(P, cg, cu, H, G, site, c, alldefs, terminators):
         if F != H and F != G and F not in terminators and F not in NORETURN:
             models[F] = helper(F)
     models[G] = m
+
+    def m_ferror(it, ctx, n, args):
+        # the error indicator of a stream is a second way the same input can fail (R14.13): such a path is not a success path
+        if ctx.choose(2, n.callee()) == 1:
+            L.proc_state(ctx)['stream_failed'] = True
+            ctx.note('%s()!=0 [the stream failed]' % n.callee())
+            return 1
+        return 0
+    for F in ('ferror', 'ferror_unlocked'):
+        models[F] = m_ferror
     glob = {}
     for name, g in cu.globals.items():       # file-scope records (option lists ...) hold anything
         t = (g.dtype or g.type or '').replace('struct ', '').strip()
@@ -1852,7 +2084,7 @@ def _open_failure_outcome(P, cg, cu, H, G, site, c, alldefs, terminators):
     except AnalysisBroken as e:
         return 'undecided', 'interpretation of %s failed: %s' % (H, e)
     failed = [(ctx, out) for ctx, out in paths if L.proc_state(ctx).get('open_failed')]
-    good = [(ctx, out) for ctx, out in paths if not L.proc_state(ctx).get('open_failed')]
+    good = [(ctx, out) for ctx, out in paths if not L.proc_state(ctx).get('open_failed') and not L.proc_state(ctx).get('stream_failed')]
     if not failed:
         return 'undecided', 'no explored path of %s reaches the call of %s' % (H, G)
     rets = []
